@@ -209,6 +209,16 @@ pub fn check(c: &Case) -> Outcome {
                 Ran::Done(R::Err(..)) if !plus_ok => {}
                 o => return fail(format!("`t + d` with t = {} d = {} ns should be the instant {} ns, observed {}", t.text(), d_ns, want, o.show())),
             }
+            // an unparenthesised chain: every step from the left is representable, so the chain is
+            {
+                let steps_ok = (1..=3).all(|k| in_years(t.total_ns() + k * *d_ns as i128));
+                let want3 = t.total_ns() + 3 * *d_ns as i128;
+                match sut::run_src("t + d + d + d", &vars) {
+                    Ran::Done(R::Val(v @ V::Ts(..))) if v.ts_total_ns() == Some(want3) => {}
+                    Ran::Done(R::Err(..)) if !steps_ok => {}
+                    o => return fail(format!("`t + d + d + d` with t = {} d = {} ns: from the left every partial sum is a timestamp; expected the instant {} ns, observed {}", t.text(), d_ns, want3, o.show())),
+                }
+            }
             // the duration written out the way string(d) prints it
             let src = format!("t + duration({}) == t + d", lit::str_lit(&crate::model::dur::go_format(*d_ns as i128)));
             match sut::run_src(&src, &vars) {
